@@ -1901,3 +1901,31 @@ mod tests {
 		}
 	}
 }
+
+/// Verification hooks (feature `_verif_hooks` only): the crate-private
+/// [`HighZeroBytesDroppedBigSize`] codec as plain functions.
+#[cfg(feature = "_verif_hooks")]
+pub mod verif_hooks_ser {
+	use super::*;
+
+	/// Writes `v` with its high zero bytes dropped.
+	pub fn hzb_encode_u64(v: u64) -> Vec<u8> {
+		HighZeroBytesDroppedBigSize(v).encode()
+	}
+	/// Reads a `u64` whose high zero bytes were dropped; the error is the `Debug` rendering.
+	pub fn hzb_decode_u64(mut b: &[u8]) -> Result<u64, String> {
+		<HighZeroBytesDroppedBigSize<u64> as Readable>::read(&mut b)
+			.map(|x| x.0)
+			.map_err(|e| format!("{:?}", e))
+	}
+	/// Writes `v` with its high zero bytes dropped.
+	pub fn hzb_encode_u32(v: u32) -> Vec<u8> {
+		HighZeroBytesDroppedBigSize(v).encode()
+	}
+	/// Reads a `u32` whose high zero bytes were dropped; the error is the `Debug` rendering.
+	pub fn hzb_decode_u32(mut b: &[u8]) -> Result<u32, String> {
+		<HighZeroBytesDroppedBigSize<u32> as Readable>::read(&mut b)
+			.map(|x| x.0)
+			.map_err(|e| format!("{:?}", e))
+	}
+}
